@@ -106,7 +106,8 @@ DecoderLag(s, e) ==
 
 Feed(s, e) ==
   LET bad ==
-           When(e.panic # "", V(IF s.ph = "enc" THEN "C01" ELSE "C07", "panic while feeding: " \o e.panic))
+           When(e.panic # "", V(IF s.ph = "enc" THEN "C01" ELSE "C07", "panic while feeding: " \o e.panic)
+                              \cup When(s.D > 0, V("C09", "panic while feeding a codec whose output is being drained: the complete output never arrives")))
       \cup When(e.panic = "" /\ s.ph = "enc" /\ e.err # "", V("C01", "encoder feed failed: " \o e.err))
       \cup (IF e.panic = "" THEN ObsCheck(s, e, s.D)
                  \cup When(e.stable < s.stable, V("C09", "consumable bytes shrank without a drain"))
